@@ -240,6 +240,28 @@ class FdEngine:
                     a = rv["a"][0]
                     if op_place(a) is not None and a["pl"]["l"] in aliases:
                         src_alias = True
+                    elif op_place(a) is not None:
+                        # a plain tuple that carries the value in one of its components (`let (a, b) = (pair[0], pair[1])`): component-wise
+                        tl = a["pl"]["l"]
+                        tags = [x for x in aliases if isinstance(x, tuple) and len(x) == 3 and x[0] == "t" and x[1] == tl]
+                        if tags:
+                            fpath_ = [e["f"] for e in a["pl"].get("p", []) if isinstance(e, dict) and "f" in e]
+                            if fpath_:
+                                src_alias = ("t", tl, fpath_[0]) in aliases
+                            elif not lhs.get("p"):
+                                for x in tags:
+                                    aliases.add(("t", lhs["l"], x[2]))
+                                    if a.get("k") == "mv":
+                                        aliases.discard(x)
+                                continue
+                elif rv["r"] == "agg" and "tuple" in rv["kind"] and not lhs.get("p") and KIND == "fd" and \
+                        any(op_place(a) is not None and a["pl"]["l"] in aliases for a in rv["a"]) and \
+                        not any(op_place(a) is not None and ("w", a["pl"]["l"]) in aliases for a in rv["a"]):
+                    for i_, a in enumerate(rv["a"]):
+                        if op_place(a) is not None and a["pl"]["l"] in aliases:
+                            aliases.add(("t", lhs["l"], i_))
+                    aliases.discard(lhs["l"])
+                    continue
                 elif rv["r"] == "agg":
                     k = rv["kind"]
                     hit = [i for i, a in enumerate(rv["a"]) if op_place(a) is not None and a["pl"]["l"] in aliases]
@@ -332,6 +354,20 @@ class FdEngine:
                     continue
                 if lab["kind"] == "cmp":
                     la, lb = op_local(lab["a"]), op_const(lab["b"])
+                    for _ in range(4):
+                        # a match guard tests the value through a reference to it (`fd if fd < 0`): `_t = *(&result)`
+                        if la is None or la in aliases or la in status_locals:
+                            break
+                        dd = [x for x in f.defs().get(la, []) if not f.is_cleanup(x[0])]
+                        if len(dd) != 1 or dd[0][1] is None:
+                            break
+                        rv_ = dd[0][2]["rv"]
+                        if rv_["r"] in ("ref", "raw") and not [e for e in rv_["pl"].get("p", []) if e != "*"]:
+                            la = rv_["pl"]["l"]
+                        elif rv_["r"] in ("use", "cast") and op_place(rv_["a"][0]) is not None and not [e for e in rv_["a"][0]["pl"].get("p", []) if e != "*"]:
+                            la = rv_["a"][0]["pl"]["l"]
+                        else:
+                            break
                     if la is not None and la not in aliases and la not in status_locals and status_locals:
                         # a copy of the status result (`let r = socketpair(..); if r < 0`)
                         if any(r.kind == "call" and f.term(r.block)["dest"]["l"] in status_locals for r in tracer.roots(la)):
@@ -981,7 +1017,16 @@ def _classify_released(F, f, tr, operand, model, site_block):
                     owned_desc.append("own field `%s` inside Drop of %s" % (fld, adt))
                 else:
                     # a field of a parameter read without moving it out
-                    borrowed_desc.append("field %s of parameter %d" % (".".join(r.field_names()), r.id))
+                    # `let fd = self.fd; self.fd = -1;` is mem::replace written out: a moving read when every way on from here stores a negative constant into that field
+                    stores = [b_ for b_ in f.live_blocks() if not f.is_cleanup(b_) and any(
+                        st_["s"] == "assign" and st_["rv"]["r"] == "use" and (op_const(st_["rv"]["a"][0]) or 0) < 0 and
+                        [e.get("n") for e in st_["lhs"].get("p", []) if isinstance(e, dict) and "f" in e][-1:] == [fld] and
+                        any(x.kind == "param" and x.id == r.id for x in tr.roots(st_["lhs"]["l"])) for st_ in f.stmts(b_))]
+                    if (adt, fld) in own_direct and stores and f.all_paths_pass(0, stores)[0]:
+                        # every path through the function passes the sentinel store (before or after the release: `let fd = self.fd; self.fd = -1; from_fd(fd)`)
+                        owned_desc.append("field read with the sentinel stored on every path through the function (mem::replace written out)")
+                    else:
+                        borrowed_desc.append("field %s of parameter %d" % (".".join(r.field_names()), r.id))
             else:
                 s = summ.get(strip_generics(f.path), {})
                 if s.get(r.id) in ("consume", "partial"):
